@@ -491,6 +491,55 @@ def _rw_io_once(tl):
     return out, cnt
 
 
+def rw_fmt(tl):
+    """R12: `write!` inside `impl fmt::Display`:
+         write!(f, "lit")           => fmt_write0(f, "lit")
+         write!(f, "{}", A)         => fmt_write1(f, &(A))
+         write!(f, "{}SEP{}", A, B) => fmt_write2(f, &(A), "SEP", &(B))"""
+    out = []
+    i = 0
+    cnt = 0
+    n = len(tl)
+    while i < n:
+        if tl[i] == "write" and i + 2 < n and tl[i + 1] == "!" and tl[i + 2] == "(":
+            j = _close(tl, i + 2)
+            inner = tl[i + 3:j]
+            parts, cur, d = [], [], 0
+            for t in inner:
+                if t in ("(", "[", "{"):
+                    d += 1
+                elif t in (")", "]", "}"):
+                    d -= 1
+                if t == "," and d == 0:
+                    parts.append(cur)
+                    cur = []
+                else:
+                    cur.append(t)
+            parts.append(cur)
+            fs = parts[1][0] if len(parts) >= 2 and len(parts[1]) == 1 and parts[1][0].startswith('"') else None
+            if fs is not None:
+                body = fs[1:-1]
+                if len(parts) == 2 and "{" not in body:
+                    out += ["fmt_write0", "("] + parts[0] + [",", fs, ")"]
+                    i = j + 1
+                    cnt += 1
+                    continue
+                if len(parts) == 3 and body == "{}":
+                    out += ["fmt_write1", "("] + parts[0] + [",", "&", "("] + parts[2] + [")", ")"]
+                    i = j + 1
+                    cnt += 1
+                    continue
+                if len(parts) == 4 and body.count("{}") == 2 and body.startswith("{}") and body.endswith("{}"):
+                    sep = '"' + body[2:-2] + '"'
+                    out += ["fmt_write2", "("] + parts[0] + [",", "&", "("] + parts[2] + [")", ",", sep, ",", "&", "("] + parts[3] + [")", ")"]
+                    i = j + 1
+                    cnt += 1
+                    continue
+        out.append(tl[i])
+        i += 1
+    return out, cnt
+
+
 def rw_chars_rev(tl):
     """R6b: `for C in S . chars ( ) . rev ( ) { BODY }` =>
     `let cs_ = chars_of(&S); let mut k_ = cs_.len(); while k_ > 0 { k_ -= 1; let C = cs_[k_]; BODY }`"""
